@@ -99,6 +99,15 @@ MUTATIONS: list[tuple[str, list[str], str, list]] = [
     ("V4", ["C04"], "Simulation.get_right_hand_side walks the segments LAST to FIRST (answers unchanged, the model is left at the first segment's parameters)",
      [(RES, "                for args, p in zip(args_by_simulation, self.raw_parameters, strict=True)\n            ],",
        "                for args, p in reversed(list(zip(args_by_simulation, self.raw_parameters, strict=True)))\n            ][::-1],", 1)]),
+    # --- added with the family gen_late_switch (C14: dense sampling right after a switch, late in absolute time)
+    ("T1", ["C14", "C04"], "seeded/C14-4 (= C04-2): Scipy.integrate_time_course prepends t0 unless np.isclose(time_points[0], t0) "
+                           "(rtol 1e-5: at t >= ~800 a sample 2^-7 after a switch is taken for the switch itself)",
+     [("patch", "/verif/seeded/C14-4/patch.diff")]),
+    ("T2", ["C14"], "Scipy.integrate_time_course: ABSOLUTE tolerance, `abs(time_points[0] - self.t0) > 1e-4` (independent of the absolute "
+                    "time; only samples closer than 1e-4 to a switch are lost)",
+     [(INT, "        if time_points[0] != self.t0:", "        if abs(time_points[0] - self.t0) > 1e-4:", 1)]),
+    ("T3", ["C14"], "Scipy.integrate_time_course: math.isclose with rel_tol=1e-7 (`not math.isclose(time_points[0], self.t0, rel_tol=1e-7)`)",
+     [(INT, "        if time_points[0] != self.t0:", "        if not __import__('math').isclose(time_points[0], self.t0, rel_tol=1e-7):", 1)]),
 ]
 
 
